@@ -9,3 +9,89 @@ META = {
   note="Trusted: rustc/Kani/CBMC; ghost backend Rec; layout predicates transcribed from the statement. Backend kinds are covered through the backends' own contracts (C13, C11) plus parametricity. write_unary's zero-word loop is bounded (K=2 quick / 4 thorough words).",
   design="4/C01"),
 }
+
+META.update({
+ "C02": dict(
+  technique="contract harnesses over an arbitrary invariant-satisfying reader state with a symbolic ghost stream, discharged by Kani/CBMC",
+  category="proof",
+  text="Proof per operation, for every Inv_R state (every buffer fill level incl. more than one word buffered), every symbolic stream (strict or zero-extended) and every n: "
+       "read_bits, peek_bits (+repeatability), skip_bits_after_peek, clone, new of BufBitReader (BE/LE x u8..u64) and of the unbuffered BitReader return exactly the canonical-layout bits, advance by exactly n and re-establish the invariant; "
+       "hence every history, by induction. read_unary/skip_bits word loops are bounded in the backend window (K words).",
+  note="Trusted: Kani/CBMC, ghost backend Oracle, mk_buffer (the invariant's constructor). Zero extension is the contract of MemWordReader (bounded array length). read_unary and skip_bits are bounded (K=2/4 words).",
+  design="4/C02"),
+ "C07": dict(
+  technique="contract harnesses (position view p = cursor*BITS - bits_in_buffer) discharged by Kani/CBMC",
+  category="proof",
+  text="Proof that bit_pos reports the view position p for every Inv_R state, that every operation moves p by exactly the number of bits it consumes, and that set_bit_pos(q) re-establishes the invariant at p = q for every q in 0..=length (strict) / any q (zero-extended), aligned or not; "
+       "by the C02 contracts all later results then equal those of a fresh reader that consumed q bits. Buffered (u8..u64) and unbuffered readers over a seekable ghost backend with a symbolic word offset.",
+  note="Backends' own seek contracts are C13 (memory) and C11 (byte adapter). Word loops bounded as in C02.",
+  design="4/C07"),
+ "C09": dict(
+  technique="contract harnesses with a strict/zero-extended ghost backend (Kani/CBMC) + client obligations on truncated valid streams over the abstract model",
+  category="proof",
+  text="Proof that on a strict backend every primitive returns Ok only if all bits it consumes lie in the data and Err only if a bit beyond the end is needed (a failed peek leaves the reader unchanged), and never fails on a zero-extended one; "
+       "for gamma, delta, zeta3 (all table options) and omega: a codeword lying entirely within the data decodes to its value even when the table look-ahead would peek past the end, a cut codeword is an error.",
+  note="Code-level part is over the abstract model (trait contract); strict memory backends by their own contract (C13). read_unary/skip_bits bounded in K.",
+  design="4/C09"),
+ "C11": dict(
+  technique="contract harnesses over faulty std::io objects (symbolic short counts / Interrupted / errors per call) discharged by Kani/CBMC",
+  category="proof",
+  text="Proof for u8/u16/u32 words over complete fault schedules (and bounded schedules for u64/u128) that write_word either transfers exactly to_ne_bytes() once and in order or reports an error, that read_word returns the next BYTES bytes or an error (a partial trailing word is an error), "
+       "and (bounded Cursor) that word_pos equals the words transferred and set_word_pos addresses the word.",
+  note="std's write_all/read_exact are executed by CBMC, not trusted; alloc::fmt::format is stubbed (error-message text not covered). u64/u128 fault schedules limited to 4/3 calls; Cursor length <= 2 words.",
+  design="4/C11"),
+ "C13": dict(
+  technique="contract harnesses against an array+cursor model, Kani/CBMC, array length bounded",
+  category="other",
+  text="Bounded contract check (array length <= 3 quick / 6 thorough; contents, length, cursor, operation, storage kind symbolic): every method of MemWordReader (zero-extended and strict), MemWordWriterSlice and MemWordWriterVec (owned and borrowed storage) "
+       "agrees with the array-plus-cursor model from an arbitrary state built through the public API, including rejected seeks and errors beyond the end leaving the cursor unchanged.",
+  note="Bounded in the array length only (never counted as proved). Positions assumed < 2^56 words. alloc::fmt::format stubbed. Vec<u64..u128> harnesses are in the thorough tier (7 GB each).",
+  design="4/C13"),
+ "C17": dict(
+  technique="loop-free full-domain contract harnesses discharged by Kani/CBMC",
+  category="proof",
+  text="Complete proof for u8/i8 ... u128/i128 and usize/isize: to_nat(to_int(x)) = x, to_int(to_nat(y)) = y, y >= 0 maps to 2y and y < 0 to -2y-1, for all 2^N values of each type.",
+  note="Trusted: Kani/CBMC only.",
+  design="4/C17"),
+ "C20": dict(
+  technique="Verus requires/ensures/invariant/decreases on the extracted real text of FindChangePoints::next; Kani harnesses for length monotonicity",
+  category="proof",
+  text="Proof (Verus, unbounded, arbitrary deterministic monotone closure): next() first yields (0, f(0)); afterwards it yields the least x > current with f(x) != f(current) together with f(x), and returns None only if no change point exists up to 2^63; both loops terminate and no arithmetic overflows.",
+  note="Kraft-McMillan (prefix-free => Kraft sum <= 1) is assumed mathematics; utils/implied.rs (floating point, rand) is not covered. Closure assumed total and deterministic with values < usize::MAX.",
+  design="4/C20"),
+})
+
+META.update({
+ "C03": dict(
+  technique="client obligations: the real generic read_*/write_* on the executable trait contract (abstract 256-bit stream), Kani/CBMC; Verus for unbounded Golomb/Rice pieces",
+  category="proof",
+  text="Proof over the whole value domain (2^64-2 / 2^64-1) with symbolic preceding and following bits: for gamma, delta, omega, zeta3, VByte BE/LE (all table options) and zeta_k/pi_k/exp-Golomb_k on a parameter grid, the real reader applied to what the real writer wrote returns the value and stops exactly at the end of the codeword. "
+       "Composition with C01/C02 (every writer/reader configuration refines the same stream contract) gives every word size, reader kind and position. Unary/Rice/Golomb/minimal-binary are bounded (quotient must fit the 256-bit model; Golomb moduli on a constant grid).",
+  note="Abstract model BitsStream is the trusted executable form of the trait contract (it also checks the preconditions clients must respect). zeta/pi/Rice/exp-Golomb parameters on the grid {0,1,2,3,4,5,8,13,31,32,33,62,63}; Golomb moduli on a 31-point grid (symbolic divisor is not tractable for SAT).",
+  design="4/C03"),
+ "C04": dict(
+  technique="client obligations against independent spec functions (self-tested on the repository's literal codewords), Kani/CBMC",
+  category="proof",
+  text="Proof for every value of the domain and symbolic parameter (zeta k in 1..=63, pi/exp-Golomb/Rice k in 0..=63): the bits the real writer appends to the abstract stream equal the codeword built by spec.rs from the published definitions (BE and LE conventions), with every table option; Golomb/minimal binary on a modulus grid (bounded).",
+  note="Oracle = /verif/contracts/src/spec.rs, transcribed from module docs; self-tested natively against 160 literal codewords of the repository's tests and doc tables. zeta_k compared where the interval bound is capped at 2^64 (the library and the spec agree on the capped interval).",
+  design="4/C04"),
+ "C05": dict(
+  technique="client obligations comparing table-driven and bit-by-bit paths on arbitrary truncated valid streams over the abstract model (peek width = table index width), Kani/CBMC",
+  category="proof",
+  text="Proof for all values, symbolic surrounding bits, symbolic truncation point and strict/zero-extended end: reading gamma, delta (all 4 option combinations) and zeta3 with tables returns the same result, value and final position as bit by bit; every decoding-table entry that is present equals the bit-by-bit decoding of its index pattern (symbolic index); "
+       "table and non-table writers/length functions agree through the common definition (C04/C06 obligations).",
+  note="The peek contract (n <= guaranteed width) is checked by the model; the real readers' guaranteed width is C02's peek obligation; check_tables' text output is not observed.",
+  design="4/C05"),
+ "C06": dict(
+  technique="client obligations (len_* vs spec length vs value returned by write vs bits appended vs bits consumed), Kani/CBMC",
+  category="proof",
+  text="Proof over the full 64-bit domain and symbolic parameters: every len_* function (with and without length tables) equals the defined codeword length (u128 arithmetic), equals the value returned by the write and the number of bits appended (where the codeword fits the model), and equals the bits the read consumes (round-trip obligations).",
+  note="Dispatch-object lengths are part of C10. Unary/Rice/Golomb writes bounded by the 256-bit model; their len functions are proved for every value.",
+  design="4/C06"),
+ "C08": dict(
+  technique="Verus loop invariants on the extracted real text of the default copy_to/copy_from; Kani contract harnesses for the optimised paths",
+  category="proof",
+  text="Proof (Verus, unbounded n, generic reader and writer, default and checks configurations): the default chunked copy_to/copy_from append exactly the reader's next n bits and advance the reader by n, issuing only calls within the trait preconditions.",
+  note="Optimised BufBitReader::copy_to / BufBitWriter::copy_from obligations are registered separately (see known findings). Rewrites: map_err(..)? desugaring (R6), core::cmp::min -> if/else.",
+  design="4/C08"),
+})
